@@ -10,6 +10,7 @@
  *                3 recompile history: compiled natively, recompiled for a target without a rule, chunk reused by another program),
  *       bit4 hold: programs and their code stay alive until the end (code memory has to grow by new regions)
  *       bit5 2-D: the program is two-dimensional (3 rows, stride 128 bytes)
+ *       bit6 general-register exhaustion: 4 destinations + 8 sources, two of them read by resampling loads (d1 = s1 + s2 as in kind 0)
  *       reps (number of compile/run repetitions)
  * Prints one JSON line.
  */
@@ -73,6 +74,26 @@ static void backup_fn (OrcExecutor *ex)
   (void) ex;
 }
 
+static OrcProgram *make_gpx_program (void)
+{
+  /* more array pointers (12) plus two resampling offsets than there are general registers: must fall back, not miscompile */
+  OrcProgram *p = orc_program_new (); int d[4], s[8], t1, t2, c0, c1;
+  orc_program_set_name (p, "faultgpx");
+  d[0] = orc_program_add_destination (p, 2, "d1"); s[0] = orc_program_add_source (p, 2, "s1"); s[1] = orc_program_add_source (p, 2, "s2");
+  d[1] = orc_program_add_destination (p, 2, "d2"); d[2] = orc_program_add_destination (p, 2, "d3"); d[3] = orc_program_add_destination (p, 4, "d4");
+  s[2] = orc_program_add_source (p, 2, "s3"); s[3] = orc_program_add_source (p, 2, "s4"); s[4] = orc_program_add_source (p, 2, "s5"); s[5] = orc_program_add_source (p, 2, "s6");
+  s[6] = orc_program_add_source (p, 4, "s7"); s[7] = orc_program_add_source (p, 4, "s8");
+  t1 = orc_program_add_temporary (p, 4, "t1"); t2 = orc_program_add_temporary (p, 4, "t2");
+  c0 = orc_program_add_constant (p, 4, 0, "c0"); c1 = orc_program_add_constant (p, 4, 65536, "c1");
+  orc_program_append (p, "addw", d[0], s[0], s[1]);
+  orc_program_append (p, "xorw", d[1], s[2], s[3]);
+  orc_program_append (p, "subw", d[2], s[4], s[5]);
+  orc_program_append_2 (p, "ldresnearl", 0, t1, s[6], c0, c1);
+  orc_program_append_2 (p, "ldresnearl", 0, t2, s[7], c0, c1);
+  orc_program_append (p, "addl", d[3], t1, t2);
+  return p;
+}
+
 static OrcProgram *make_program (int kind)
 {
   OrcProgram *p = orc_program_new ();
@@ -114,7 +135,7 @@ static OrcProgram *make_program (int kind)
 int main (int argc, char **argv)
 {
   int variant = argc > 1 ? atoi (argv[1]) : 0, reps = argc > 2 ? atoi (argv[2]) : 1, r;
-  int with_backup = variant & 1, code_only = (variant >> 1) & 1, kind = (variant >> 2) & 3, hold = (variant >> 4) & 1, twod = (variant >> 5) & 1, nheld = 0, held_reruns = 0;
+  int with_backup = variant & 1, code_only = (variant >> 1) & 1, kind = (variant >> 2) & 3, hold = (variant >> 4) & 1, twod = (variant >> 5) & 1, gpx = (variant >> 6) & 1, nheld = 0, held_reruns = 0;
   static OrcProgram *held_p[MAXHELD]; static OrcCode *held_c[MAXHELD];
   const char *plan = getenv ("FAULT_PLAN");
   int calls_after_init, fds0 = -1, fds_early = -1, fds_end = -1, mismatches = 0, native_runs = 0, backup_bad = 0, emu_runs = 0, no_orccode = 0;
@@ -130,7 +151,8 @@ int main (int argc, char **argv)
   calls_after_init = ncalls;
   fds0 = count_fds ();
   for (r = 0; r < reps; r++) {
-    OrcProgram *p = make_program (kind), *q = NULL; OrcCompileResult res; OrcExecutor *ex; OrcCode *code = NULL;
+    OrcProgram *p = gpx ? make_gpx_program () : make_program (kind), *q = NULL; OrcCompileResult res; OrcExecutor *ex; OrcCode *code = NULL;
+    static short xs[8][256] __attribute__ ((aligned (16))), xdn[4][256] __attribute__ ((aligned (16))), xde[4][256] __attribute__ ((aligned (16)));
     static short a[256] __attribute__ ((aligned (16))), b[256] __attribute__ ((aligned (16))), dn[256] __attribute__ ((aligned (16))), de[256] __attribute__ ((aligned (16)));
     int i, before, n = kind == 3 ? 12 : 50;
     if (twod) orc_program_set_2d (p);
@@ -153,17 +175,23 @@ int main (int argc, char **argv)
     orc_executor_set_n (ex, n); orc_executor_set_array (ex, ORC_VAR_S1, a); orc_executor_set_array (ex, ORC_VAR_S2, b);
     if (twod) { orc_executor_set_m (ex, 3); orc_executor_set_stride (ex, ORC_VAR_S1, 128); orc_executor_set_stride (ex, ORC_VAR_S2, 128); orc_executor_set_stride (ex, ORC_VAR_D1, 128); }
     orc_executor_set_array (ex, ORC_VAR_D1, de);
+    if (gpx) { int k, j; for (k = 0; k < 8; k++) for (j = 0; j < 256; j++) xs[k][j] = (short) (j * 29 + k * 1000 + r);
+      memset (xdn, 0x33, sizeof xdn); memset (xde, 0x33, sizeof xde);
+      for (k = 2; k < 8; k++) orc_executor_set_array (ex, ORC_VAR_S1 + k, xs[k]);
+      for (k = 1; k < 4; k++) orc_executor_set_array (ex, ORC_VAR_D1 + k, xde[k]); }
     orc_executor_emulate (ex);
     if (twod) {
       /* the emulation used as the oracle must itself have covered the three rows (d = a + b for kinds 0 and 3 is easy to predict) */
       if (kind == 0) for (i = 0; i < 3; i++) if (de[i * 64 + 7] != (short) (a[i * 64 + 7] + b[i * 64 + 7])) { mismatches++; break; }
     }
     orc_executor_set_array (ex, ORC_VAR_D1, dn);
+    if (gpx) { int k; for (k = 1; k < 4; k++) orc_executor_set_array (ex, ORC_VAR_D1 + k, xdn[k]); }
     before = backup_calls;
     if (code_only) {
       OrcExecutor ex2;
       code = orc_program_take_code (p);
       memset (&ex2, 0, sizeof ex2); ex2.n = n; ex2.arrays[ORC_VAR_A2] = code; ex2.arrays[ORC_VAR_D1] = dn; ex2.arrays[ORC_VAR_S1] = a; ex2.arrays[ORC_VAR_S2] = b;
+      if (gpx) { int k; for (k = 2; k < 8; k++) ex2.arrays[ORC_VAR_S1 + k] = xs[k]; for (k = 1; k < 4; k++) ex2.arrays[ORC_VAR_D1 + k] = xdn[k]; }
       if (twod) { ex2.params[ORC_VAR_A1] = 3; ex2.params[ORC_VAR_D1] = ex2.params[ORC_VAR_S1] = ex2.params[ORC_VAR_S2] = 128; }
       orc_executor_run (&ex2);
     } else orc_executor_run (ex);
@@ -173,6 +201,7 @@ int main (int argc, char **argv)
       if (!with_backup) backup_bad++;
     } else {
       if (memcmp (dn, de, sizeof dn)) mismatches++;
+      else if (gpx && memcmp (xdn, xde, sizeof xdn)) mismatches++;
       if (ORC_COMPILE_RESULT_IS_SUCCESSFUL (res)) native_runs++; else emu_runs++;
     }
     orc_executor_free (ex);
@@ -183,7 +212,7 @@ int main (int argc, char **argv)
   }
   /* held programs: still compute the right thing after all the later compiles, then released */
   for (r = 0; r < nheld; r++) {
-    if (r % 37 == 0 && !held_c[r] && held_p[r]->orccode) {
+    if (r % 37 == 0 && !held_c[r] && held_p[r]->orccode && !gpx) {
       static short a[64] __attribute__ ((aligned (16))), b[64] __attribute__ ((aligned (16))), dn[64] __attribute__ ((aligned (16))), de[64] __attribute__ ((aligned (16)));
       OrcExecutor *ex = orc_executor_new (held_p[r]); int i, before = backup_calls;
       for (i = 0; i < 64; i++) { a[i] = (short) (i * 51 + r); b[i] = (short) (i * 3 + 5); dn[i] = de[i] = 0x2222; }
